@@ -59,6 +59,9 @@ pub enum Mode {
     /// it completed (legal for `AsyncWrite`: what a multiplexer does when its own flush is still Pending and another
     /// stream has data); a flush awaited to completion after the last write
     FlushPoke,
+    /// per size: write until everything is accepted; NO flush at all, then `close()`: close alone has to get every
+    /// accepted byte to the carrier (an application that writes its last message and closes the socket)
+    CloseOnly,
 }
 
 /// Behaviour of the carrier in the writer -> reader (ciphertext) direction during the transfer. All op indices
@@ -672,7 +675,7 @@ fn run_inner(case: &Case) -> Obs {
                     }
                 }
             }
-            if !failed {
+            if !failed && mode != Mode::CloseOnly {
                 match sock_w.flush().await {
                     Ok(()) => o.lock().flushed = acc,
                     Err(e) => o.lock().flush_err = Some(kind(&e)),
@@ -1251,6 +1254,7 @@ pub fn run(ctx: &mut Ctx) {
         for &rbuf in &RBUFS {
             for (raf, wbs) in cfgs() {
                 g1.push(Case::honest(s, Mode::FlushEach, rbuf, raf, wbs));
+                g1.push(Case::honest(s, Mode::CloseOnly, rbuf, raf, wbs));
                 if s.len() > 1 {
                     g1.push(Case::honest(s, Mode::FlushEnd, rbuf, raf, wbs));
                     g1.push(Case::honest(s, Mode::FlushPoke, rbuf, raf, wbs));
@@ -1320,7 +1324,7 @@ pub fn run(ctx: &mut Ctx) {
     let mut op_cap_hit = false;
     for s in &rep {
         let modes: &[Mode] =
-            if s.len() > 1 { &[Mode::FlushEach, Mode::FlushEnd, Mode::FlushPoke] } else { &[Mode::FlushEach] };
+            if s.len() > 1 { &[Mode::FlushEach, Mode::FlushEnd, Mode::FlushPoke, Mode::CloseOnly] } else { &[Mode::FlushEach, Mode::CloseOnly] };
         for &mode in modes {
             for &rbuf in g2_rbufs {
                 for &(raf, wbs) in g2_cfgs {
@@ -1353,7 +1357,11 @@ pub fn run(ctx: &mut Ctx) {
                             wshapes.push((a, w));
                         }
                     }
-                    for (chunk, cuts) in &rshapes {
+                    for (ri, (chunk, cuts)) in rshapes.iter().enumerate() {
+                        if mode == Mode::CloseOnly && ri > 0 {
+                            // differs from FlushEnd only on the writer's side: the writer-side shapes over the plain reader
+                            break;
+                        }
                         if mode == Mode::FlushPoke {
                             // differs from FlushEach only where a carrier flush is Pending: grid 3 and the window shapes
                             break;
@@ -1374,6 +1382,9 @@ pub fn run(ctx: &mut Ctx) {
                     }
 
                     // ---------------- grid 3: spurious Pending, <= 2 deviations, on the default carrier
+                    if mode == Mode::CloseOnly && s.len() > 1 {
+                        continue;
+                    }
                     if !(rbuf == g2_rbufs[0] || rbuf == *g2_rbufs.last().unwrap()) {
                         continue;
                     }
